@@ -2,6 +2,7 @@
 from __future__ import annotations
 
 import importlib
+import json
 import os
 import random
 import re
@@ -29,6 +30,12 @@ THEOREMS = [
     "C28_failed_not_recorded",
     "C28_shipped_converges",
     "C28_shipped_same_final_state",
+    "C28_close_without_commit",
+    "C28_restart_converges",
+    "C28_shipped_restart_converges",
+    "C28_kill_points",
+    "C28_killed_run_recovers",
+    "C28_seed_window_witness",
 ]
 LEAN_TARGETS = ["WfProps.C28"]
 EXPLANATION = (
@@ -47,7 +54,17 @@ EXPLANATION = (
     "for every start state of the shipped list and for seeded synthetic migration packages (importable temp packages: "
     "malformed/misplaced/Unicode headers, duplicate and zero versions, unpadded names, non-.sql entries, failing and "
     "fault-injected scripts, second package); loader/regex correspondence incl. the Unicode tables. Monitors (S): "
-    "converge / each-version-once / idempotent / no-raise directly on real databases, independent of the model."
+    "converge / each-version-once / idempotent / no-raise directly on real databases, independent of the model. "
+    "Connection level (WfModel/MigrateConn.lean): one sqlite3 connection in Python's default transaction mode (durable "
+    "file vs the connection's own view; implicit BEGIN before DML, executescript commits what is pending, close "
+    "discards it) and run_migrations as the trace of its write calls; C28_close_without_commit: a process start that "
+    "commits nothing itself (connect / run / close, as DBOSRuntime.run_migrations does) leaves in the file exactly what "
+    "the abstract run computes, nothing pending, for any sources and database; C28_restart_converges states the "
+    "property on the re-opened file; C28_kill_points / C28_killed_run_recovers classify every file a killed run can "
+    "leave. K: ops session / durables / pick (every run a process start on a file, observed through a new connection; "
+    "all kill points of a run enumerated on copies of the file). S: after run_migrations returned and the connection was "
+    "closed without commit the RE-OPENED file has the fresh schema and every version once, and the next process start "
+    "changes nothing; a restart after a kill at any point converges (one classified window excepted, see notes)."
 )
 LEVEL_TEXT = "proof (generic theorems + decide on the regenerated table) + op-by-op correspondence + direct monitors"
 ASSUMPTIONS = [
@@ -64,6 +81,14 @@ ASSUMPTIONS = [
     "PRAGMA journal_mode are outside the model but inside the monitors' raw sqlite_master comparison",
     "a migration script does not itself contain COMMIT/ROLLBACK/BEGIN or create an object named schema_migrations",
     "concurrent migrators (two processes) are not covered: SQLite's file lock serialises them, not modelled",
+    "a process start is connect / run_migrations / close on one file (the DBOSRuntime.run_migrations pattern; the dbos "
+    "package itself is not importable here); a killed process is modelled by raising a BaseException at the chosen write "
+    "call (or between two statements of a script) and closing the connection: SQLite's recovery of a hot journal / WAL "
+    "after a real kill is trusted to give the same file; PRAGMA journal_mode is outside the model",
+    "killed runs are outside the property's stated quantifier: the one window in which the unchanged code does not "
+    "recover (legacy user_version>=2, kill between the autocommitted CREATE TABLE schema_migrations and the commit of "
+    "the seed rows; C28_seed_window_witness) is classified under its own signature and reported as a note "
+    "(REPORT_KILL_WINDOW=False), every other kill point must recover (C28_killed_run_recovers)",
 ]
 TRUSTED_EXTRA = [
     "CPython sqlite3 + SQLite 3.40 as the execution engine of the real side",
@@ -188,6 +213,8 @@ class Pkgs:
 
     def __init__(self) -> None:
         self.base = tempfile.mkdtemp(prefix="c28_")
+        shm = "/dev/shm" if os.path.isdir("/dev/shm") and os.access("/dev/shm", os.W_OK) else None
+        self.fast = tempfile.mkdtemp(prefix="c28db_", dir=shm)  # lifecycle files: every commit is an fsync
         sys.path.insert(0, self.base)
         self.n = 0
         self.mods: list[str] = []
@@ -219,9 +246,9 @@ class Pkgs:
                     out.append((fname, f.read()))
         return out
 
-    def db_path(self) -> str:
+    def db_path(self, life: bool = False) -> str:
         self.n += 1
-        return os.path.join(self.base, f"db_{self.n}.sqlite")
+        return os.path.join(self.fast if life else self.base, f"db_{self.n}.sqlite")
 
     def close(self) -> None:
         for m in self.mods:
@@ -229,6 +256,7 @@ class Pkgs:
         if self.base in sys.path:
             sys.path.remove(self.base)
         shutil.rmtree(self.base, ignore_errors=True)
+        shutil.rmtree(self.fast, ignore_errors=True)
 
 
 class Ctx:
@@ -293,6 +321,192 @@ def real_ddl(conn: sqlite3.Connection, sql: str) -> str:
     except sqlite3.Error:
         conn.rollback()
         return "err " + canon(conn)
+
+
+# --------------------------------------------------------------------------
+# connection lifecycles: every run is its own process start (connect / run_migrations / close, no commit by the
+# caller -- what DBOSRuntime.run_migrations and the package's test helpers do); the database "at a schema version" is
+# the FILE, i.e. what a new connection reads after the previous one was closed.  A killed process = the connection
+# closed at that point with whatever transaction was open.
+
+# An input outside C28's stated quantifier ("all starting schema versions and repeated runs": no killed runs), observed
+# on the unchanged code (DESIGN.md 14.3): a legacy user_version>=2 database whose migrating process dies between the
+# autocommitted CREATE TABLE schema_migrations and the commit of the seed rows keeps an EMPTY schema_migrations table,
+# and every later run fails on 0002.  Classified under its own signature; reported as a note unless this is flipped.
+REPORT_KILL_WINDOW = False
+KILL_WINDOW_SIG = "C28/killed_run_blocks_restart/empty_bookkeeping_on_legacy/legacy"
+
+
+class Kill(BaseException):
+    """the migrating process dies here (not an `Exception`: no handler of the code under test runs)"""
+
+
+def split_script(script: str) -> list[str]:
+    parts, buf = [], ""
+    for piece in script.split(";")[:-1]:
+        buf += piece + ";"
+        if sqlite3.complete_statement(buf):
+            parts.append(buf)
+            buf = ""
+    tail = buf + script.split(";")[-1]
+    if tail.strip():
+        parts.append(tail)
+    elif parts:
+        parts[-1] += tail
+    return parts or [script]
+
+
+def _is_read(sql: str) -> bool:
+    return sql.lstrip().split(None, 1)[0].lower() in ("select", "pragma") if sql.strip() else True
+
+
+class LifeConn(sqlite3.Connection):
+    """A genuine connection that counts the *write calls* made on it (executescript, executemany, execute of
+    anything but SELECT/PRAGMA, commit(), rollback()) and can die before the n-th one, or inside an executescript
+    after j of its statements."""
+
+    writes = 0
+    kill_at: tuple[int, int] | None = None
+    calls: list = []
+    script_in_flight: str | None = None
+
+    def arm(self, kill_at: tuple[int, int] | None) -> None:
+        self.writes, self.kill_at, self.calls, self.script_in_flight = 0, kill_at, [], None
+
+    def gate(self, label: str, nst: int = 1) -> int:
+        n = self.writes
+        if self.kill_at is not None and tuple(self.kill_at) == (n, 0):
+            raise Kill()
+        self.writes = n + 1
+        self.calls.append([label, nst])
+        return n
+
+    def run_script(self, runner: Any, script: str) -> Any:
+        parts = split_script(script)
+        n = self.gate("executescript", len(parts))
+        self.script_in_flight = script
+        k = self.kill_at
+        if k is not None and k[0] == n and 0 < k[1] < len(parts):
+            runner("".join(parts[: k[1]]))
+            raise Kill()
+        r = runner(script)
+        self.script_in_flight = None
+        return r
+
+    def execute(self, sql: str, *a: Any) -> Any:  # type: ignore[override]
+        if not _is_read(sql):
+            self.gate(sql.split(None, 1)[0].upper())
+        return super().execute(sql, *a)
+
+    def executemany(self, sql: str, *a: Any) -> Any:  # type: ignore[override]
+        self.gate("executemany")
+        return super().executemany(sql, *a)
+
+    def executescript(self, script: str) -> Any:  # type: ignore[override]
+        return self.run_script(super().executescript, script)
+
+    def commit(self) -> None:
+        self.gate("commit()")
+        super().commit()
+
+    def rollback(self) -> None:
+        self.gate("rollback()")
+        super().rollback()
+
+    def cursor(self, factory: Any = None) -> Any:  # type: ignore[override]
+        return super().cursor(LifeCur)
+
+
+class LifeCur(sqlite3.Cursor):
+    def execute(self, sql: str, *a: Any) -> Any:  # type: ignore[override]
+        if not _is_read(sql):
+            self.connection.gate(sql.split(None, 1)[0].upper())  # type: ignore[attr-defined]
+        return super().execute(sql, *a)
+
+    def executemany(self, sql: str, *a: Any) -> Any:  # type: ignore[override]
+        self.connection.gate("executemany")  # type: ignore[attr-defined]
+        return super().executemany(sql, *a)
+
+    def executescript(self, script: str) -> Any:  # type: ignore[override]
+        return self.connection.run_script(super().executescript, script)  # type: ignore[attr-defined]
+
+
+def life_session(ctx: "Ctx", path: str, sources: list[tuple[str, str]] | None, texts: dict[str, str],
+                 kill_at: tuple[int, int] | None = None, stock: bool = False) -> dict:
+    """One process start on the file: connect, run_migrations, close -- the caller commits nothing."""
+    conn: Any = sqlite3.connect(path) if stock else sqlite3.connect(path, factory=LifeConn)
+    if not stock:
+        conn.arm(kill_at)
+    res: dict = {"status": "ok", "calls": []}
+    try:
+        try:
+            if sources is None:
+                ctx.migrate.run_migrations(conn)
+            else:
+                ctx.migrate.run_migrations(conn, sources=sources)
+        except Kill:
+            res["status"] = "killed"
+        except Exception as e:  # noqa: BLE001
+            s_ = None if stock else conn.script_in_flight
+            name = texts.get(s_[len("BEGIN;\n"):]) if (s_ is not None and s_.startswith("BEGIN;\n")) else None
+            res["status"] = f"failed {name}" if name is not None else f"raised {type(e).__name__}"
+            res["error"] = repr(e)[:200]
+        res["pending"] = bool(conn.in_transaction)
+        if not stock:
+            res["calls"] = conn.calls
+    finally:
+        conn.close()
+    return res
+
+
+def observe(path: str) -> tuple[str, dict]:
+    """the file as the next process start finds it"""
+    conn = sqlite3.connect(path)
+    try:
+        return canon(conn), raw_dump(conn)
+    finally:
+        conn.close()
+
+
+def copy_db(src: str, dst: str) -> None:
+    for suffix in ("", "-wal", "-shm", "-journal"):
+        if os.path.exists(src + suffix):
+            shutil.copyfile(src + suffix, dst + suffix)
+        elif os.path.exists(dst + suffix):
+            os.remove(dst + suffix)
+
+
+def kill_points(ctx: "Ctx", path: str, sources: Any, texts: dict[str, str]) -> list[dict]:
+    """Every point at which the process can die during one run on (a copy of) this file: before each write call and
+    between the statements of each script; for each the file it leaves behind."""
+    probe = ctx.pkgs.db_path(life=True)
+    copy_db(path, probe)
+    calls = life_session(ctx, probe, sources, texts)["calls"]
+    points: list[tuple[int, int]] = []
+    for n, (_label, nst) in enumerate(calls):
+        points.append((n, 0))
+        points += [(n, j) for j in range(1, nst)]
+    out = []
+    for pt in points:
+        f = ctx.pkgs.db_path(life=True)
+        copy_db(path, f)
+        r = life_session(ctx, f, sources, texts, kill_at=pt)
+        c, d = observe(f)
+        out.append({"at": list(pt), "before": calls[pt[0]][0], "file": f, "canon": c, "dump": d, "status": r["status"]})
+    c, d = observe(probe)
+    out.append({"at": [len(calls), 0], "before": "close", "file": probe, "canon": c, "dump": d, "status": "completed"})
+    return out
+
+
+def kill_phase(start: dict, at_kill: dict) -> str:
+    """classified from the two file contents only"""
+    if at_kill == start:
+        return "nothing_durable"
+    had = any(r[0] == "table" and r[1] == "schema_migrations" for r in start["book"])
+    has = any(r[0] == "table" and r[1] == "schema_migrations" for r in at_kill["book"])
+    if not had and has and start["uv"] > 0 and not at_kill["rows"] and at_kill["user"] == start["user"]:
+        return "empty_bookkeeping_on_legacy"
+    return "partly_migrated"
 
 
 # --------------------------------------------------------------------------
@@ -511,6 +725,10 @@ def gen_starts(rng: random.Random, nfiles: int, maxv: int, n: int, with_fault: b
             st["fault"] = rng.randrange(max(1, nfiles))
         if rng.random() < 0.25:
             st["file_db"] = True
+        if rng.random() < 0.3:
+            # every run of this history is a process start of its own; sometimes with killed runs in between
+            st["fault"] = None
+            st["life"] = {"kills": [{"pick": rng.randrange(64)} for _ in range(rng.choice([0, 0, 0, 1, 1, 2]))]}
         starts.append(st)
     return starts
 
@@ -553,6 +771,19 @@ def shipped_family() -> dict:
             # (a file already switched to WAL by an ordinary connection cannot be opened at all through the lock-free
             # `unix-none` VFS that single_connection uses -- a deployment-mode matter, not a schema-version one)
             starts.append({"legacy": None, "prefixes": [1], "fault": None, "file_db": True, "entry": entry})
+    # connection lifecycles: each run a process start of its own on the file (connect / run / close, the caller commits
+    # nothing), from every start state; for some, every point at which the migrating process can be killed
+    starts.append({"legacy": None, "prefixes": [], "fault": None, "life": {"kills": [{"pick": 5}]}})
+    for k in range(-1, n + 2):
+        starts.append({"legacy": k, "prefixes": [], "fault": None, "data": k % 2 == 0, "life": {"stock": k % 2 == 1}})
+    for j in range(0, n + 1):
+        starts.append({"legacy": None, "prefixes": [j], "fault": None, "data": j % 2 == 1, "life": {"stock": j % 2 == 0}})
+    for k in range(1, n):
+        starts.append({"legacy": k, "prefixes": [k + 1], "fault": None, "life": {}})
+    starts.append({"legacy": None, "prefixes": [1, 3], "fault": None, "life": {"kills": [{"pick": 2}]}})
+    starts.append({"legacy": 1, "prefixes": [], "fault": None, "life": {"kills": [{"pick": 3}]}})
+    starts.append({"legacy": n, "prefixes": [], "fault": None, "life": {"kills": [{"pick": 0}]}})
+    starts.append({"legacy": 2, "prefixes": [3], "fault": None, "life": {"kills": [{"pick": 1}, {"pick": 1}]}})
     # the legacy layout of the package's own tests: one consolidated CREATE TABLE
     starts.append({"legacy": 1, "prefixes": [], "fault": None, "normalized": True, "legacy_sql":
                    "CREATE TABLE IF NOT EXISTS handlers (handler_id TEXT PRIMARY KEY, workflow_name TEXT, status TEXT, ctx TEXT);"})
@@ -598,6 +829,19 @@ def corpus_families() -> list[dict]:
         "starts": [{"legacy": None, "prefixes": [], "fault": None}, {"legacy": 1, "prefixes": [], "fault": None},
                    {"legacy": None, "prefixes": [1], "fault": None}, {"legacy": 2, "prefixes": [], "fault": None}]}
     fams.append(two)
+    for fam in fams:
+        fam["starts"] = fam["starts"] + [{"legacy": None, "prefixes": [], "fault": None, "life": {"kills": [{"pick": 1}]}},
+                                          {"legacy": 1, "prefixes": [], "fault": None, "life": {}},
+                                          {"legacy": None, "prefixes": [1], "fault": None, "life": {"kills": [{"pick": 2}]}}]
+    # hand-picked lifecycles on the shipped directory (harness/corpus/c28_lifecycles.json); "head" = newest version
+    files = shipped_dir()
+    n = sum(1 for f in files if f[0].endswith(".sql"))
+    with open(os.path.join(os.path.dirname(os.path.dirname(os.path.abspath(__file__))), "corpus", "c28_lifecycles.json"), encoding="utf-8") as f:
+        for item in json.load(f)["cases"]:
+            st = dict(item["start"])
+            if st.get("legacy") == "head":
+                st["legacy"] = n
+            fams.append({"kind": "shipped", "label": item["label"], "wild": False, "sources": [[SERVER, files]], "starts": [st]})
     return fams
 
 
@@ -711,7 +955,14 @@ def run_family(ctx: Ctx, fam: dict) -> None:
         c0.close()
 
     extras = [f for f in src_specs[0][1] if not any(f[0] == n for n, _t, _v in order0)]
+    F = {"shipped": shipped, "wellformed": wellformed, "ref": ref, "declared": declared, "order0": order0, "orders": orders,
+         "src_specs": src_specs, "main_pkg": main_pkg, "extras": extras, "real_sources": real_sources, "texts_full": texts_full,
+         "m_session": "sessionshipped" if shipped else "session" + model_full[len("run"):],
+         "m_durables": "durablesshipped" if shipped else "durables" + model_full[len("run"):]}
     for st in fam["starts"]:
+        if st.get("life") is not None:
+            run_life(ctx, fam, st, F)
+            continue
         kind = start_kind(st)
         case = {"family": dict(fam, starts=[st]), "start": st}
         out.count("start:" + kind)
@@ -849,6 +1100,156 @@ def st_brief(st: dict) -> str:
     return f"legacy={st.get('legacy')} prefixes={st.get('prefixes')} fault={st.get('fault')}"
 
 
+def file_problems(F: dict, d: dict) -> list[tuple[str, str]]:
+    """(rule, what) for a database FILE (read through a new connection) that should be fully migrated; the expected
+    content is recomputed from the inputs: the schema of a freshly migrated database, and one row per version the
+    loader reads / per version the shipped files declare"""
+    probs: list[tuple[str, str]] = []
+    ref = F["ref"]
+    if F["wellformed"] and ref is not None:
+        if not (d["user"] == ref[0]["user"] and d["book"] == ref[0]["book"]):
+            probs.append(("reopened_schema_differs", "sqlite_master of the re-opened file differs from a freshly migrated database's"))
+        for p, order in zip([p for p, _ in F["src_specs"]], F["orders"]):
+            for _n, _t, v in order:
+                cnt = sum(1 for row in d["rows"] if row[0] == p and row[1] == v)
+                if cnt != 1:
+                    probs.append(("reopened_version_count", f"version {p}:{v} is recorded {cnt} times in the re-opened file "
+                                  f"(rows: {[(r[0], r[1]) for r in d['rows']]})"))
+                    break
+    if F["declared"]:
+        tables = {r_[1].lower() for r_ in d["user"] if r_[0] == "table"}
+        for n_, v_, made in F["declared"]:
+            cnt = sum(1 for row in d["rows"] if row[0] == SERVER and row[1] == v_)
+            if cnt != 1:
+                probs.append(("reopened_declared_version_count", f"{n_} declares migration {v_}; recorded {cnt} times in the re-opened file"))
+                break
+            if any(t_ not in tables for t_ in made):
+                probs.append(("reopened_declared_table_missing", f"{n_} (migration {v_}) creates {made}; missing in the re-opened file"))
+                break
+    return probs
+
+
+def run_life(ctx: Ctx, fam: dict, st: dict, F: dict) -> None:
+    """A start state whose whole history consists of separate process starts on one database file."""
+    out = ctx.out
+    life = st["life"]
+    kind = start_kind(st)
+    case = {"family": dict(fam, starts=[st]), "start": st}
+    wellformed, order0, main_pkg = F["wellformed"], F["order0"], F["main_pkg"]
+    real_sources, texts_full = F["real_sources"], F["texts_full"]
+    stock = bool(life.get("stock")) and not life.get("kills")
+    out.count("start:" + kind)
+    out.count("life:" + ("kills" if life.get("kills") else "sessions") + (":stock_connection" if stock else ""))
+    path = ctx.pkgs.db_path(life=True)
+    conn = sqlite3.connect(path)
+    ctx.op("fresh", canon(conn), case)
+    legacy = st.get("legacy")
+    if legacy is not None:
+        for sql in [t for _n, t, v in order0 if 0 < v <= legacy]:
+            ctx.op("ddl " + enc_stmts(parse_sql(sql)), real_ddl(conn, sql), case)
+        conn.execute(f"PRAGMA user_version={int(legacy)}")
+        conn.commit()
+        ctx.op(f"setuv {int(legacy)}", canon(conn), case)
+    conn.close()
+    sess_ok = True
+
+    def line(res: dict, c: str) -> str:
+        return f"{res['status']} {c} pending={int(res['pending'])}"
+
+    for j in st.get("prefixes", []):
+        pre = [(n, t) for n, t, _v in order0[:j]] + [("__init__.py", "")] + [e for e in F["extras"] if e[0] != "__init__.py" and not e[0].endswith(".sql")]
+        mod_j = ctx.pkgs.make(pre)
+        lst = ctx.pkgs.listing(mod_j)
+        res = life_session(ctx, path, [(main_pkg, mod_j)], {t: n for n, t in lst})
+        c, _d = observe(path)
+        ctx.op("session " + enc_sources([(main_pkg, lst)]), line(res, c), case)
+        out.evaluations += 1
+        if res["status"] != "ok":
+            sess_ok = False
+            if wellformed:
+                out.violations.append(Violation(f"C28/restart_raises/{kind}", f"a process start running the first {j} migrations: {res['status']} {res.get('error', '')}", case))
+    if st.get("data"):
+        conn = sqlite3.connect(path)
+        try:
+            if conn.execute("SELECT 1 FROM sqlite_master WHERE name='handlers'").fetchone():
+                conn.execute("INSERT OR IGNORE INTO handlers (handler_id, workflow_name, status, ctx) VALUES ('h1','w','running','{}')")
+                conn.commit()
+        except sqlite3.Error:
+            conn.rollback()
+        conn.close()
+
+    # ---- killed runs: every point of one run on this file; then the history continues from one of the files left
+    for ks in life.get("kills", []):
+        c_start, d_start = observe(path)
+        pts = kill_points(ctx, path, real_sources, texts_full)
+        out.count("kill_points", len(pts))
+        out.evaluations += len(pts)
+        seq, reps = [c_start], [None]
+        for p_ in pts:
+            if p_["canon"] != seq[-1]:
+                seq.append(p_["canon"])
+                reps.append(p_)
+        ctx.op(F["m_durables"], " ## ".join(seq), case)
+        bad: set = set()
+        for p_ in reps[1:]:
+            if p_["status"] == "completed":
+                continue  # the ordinary run, examined below
+            phase = kill_phase(d_start, p_["dump"])
+            out.count("killed:" + phase)
+            if not (wellformed and F["ref"] is not None and sess_ok):
+                continue
+            f_ = ctx.pkgs.db_path(life=True)
+            copy_db(p_["file"], f_)
+            r_ = life_session(ctx, f_, real_sources, texts_full)
+            probs = [("restart_raises", f"{r_['status']} {r_.get('error', '')}")] if r_["status"] != "ok" else file_problems(F, observe(f_)[1])
+            out.evaluations += 1
+            if probs:
+                bad.add(p_["canon"])
+                sig = f"C28/killed_run_blocks_restart/{phase}/{kind}"
+                what = (f"run_migrations from start {st_brief(st)} killed before write call #{p_['at'][0]} ({p_['before']})"
+                        + (f", after {p_['at'][1]} statements of that script" if p_["at"][1] else "")
+                        + f"; the file then holds rows {[(r[0], r[1]) for r in p_['dump']['rows']]}; the next process start: {probs[0][0]}: {probs[0][1]}")
+                if sig == KILL_WINDOW_SIG and not REPORT_KILL_WINDOW:
+                    out.count("observation_outside_quantifier:" + sig)
+                    note = "observation outside C28's quantifier (killed runs; no claim): " + sig + " -- " + what
+                    if not any(n_.startswith("observation outside C28's quantifier") for n_ in out.notes):
+                        out.notes.append(note[:600])
+                else:
+                    out.violations.append(Violation(sig, what, case))
+        idx = int(ks.get("pick", 0)) % len(seq)
+        if idx > 0:
+            copy_db(reps[idx]["file"], path)
+            if seq[idx] in bad:
+                sess_ok = False  # reported (or noted) above under the kill's own signature
+        ctx.op(f"pick {idx}", observe(path)[0], case)
+
+    # ---- the run under test: a process start; then another one
+    res1 = life_session(ctx, path, real_sources, texts_full, stock=stock)
+    c1, d1 = observe(path)
+    ctx.op(F["m_session"], line(res1, c1), case)
+    out.evaluations += 1
+    out.count("final:" + ("ok" if res1["status"] == "ok" else "raised"))
+    if res1["status"] != "ok":
+        if wellformed and sess_ok:
+            out.violations.append(Violation(f"C28/restart_raises/{kind}", f"run_migrations on a new connection, start {st_brief(st)}: {res1['status']} {res1.get('error', '')}", case))
+    else:
+        out.nontrivial((kind, "life", c1))
+        if sess_ok:
+            for rule, what in file_problems(F, d1):
+                out.violations.append(Violation(f"C28/{rule}/{kind}", f"run_migrations returned, the connection was closed (no commit by the caller): {what}; start {st_brief(st)}", case))
+        res2 = life_session(ctx, path, real_sources, texts_full, stock=stock)
+        c2, d2 = observe(path)
+        ctx.op(F["m_session"], line(res2, c2), case)
+        out.evaluations += 1
+        if res2["status"] != "ok" or d2 != d1:
+            out.violations.append(Violation(f"C28/restart_changes/{kind if wellformed else 'irregular'}",
+                                            f"after a completed run, the next process start {'raised: ' + res2['status'] + ' ' + res2.get('error', '') if res2['status'] != 'ok' else 'changed the database file'} (start {st_brief(st)})", case))
+    key = (fam["kind"], fam.get("wild"), kind, "life")
+    if key not in ctx.sampled:
+        ctx.sampled.add(key)
+        out.sample({"family": fam.get("label", fam["kind"]), "start": st_brief(st), "life": life, "result": line(res1, c1)[:160]}, cap=12)
+
+
 def bare_run(ctx: Ctx, conn: sqlite3.Connection, sources: Any) -> tuple[str, bool]:
     try:
         if sources is None:
@@ -902,8 +1303,10 @@ def run(env: Env) -> Outcome:
     out = Outcome()
     out.rule = ("family = migration directory (+ optional second package) x start states {fresh, legacy user_version=k, "
                 "run of a prefix, legacy then prefix, injected failure then retry} x {:memory:, file}; each start: ops "
-                "fresh/ddl/setuv/run*/run/run compared with the model; non-trivial = a final run that succeeded; distinct by "
-                "(start kind, final state)")
+                "fresh/ddl/setuv/run*/run/run compared with the model; lifecycle starts: every run a process start "
+                "(connect/run/close without commit) on a file, optionally all kill points of a run and a continuation from "
+                "one of the files left: ops session*/durables/pick/session/session; non-trivial = a final run that "
+                "succeeded; distinct by (start kind, final state)")
     ctx = Ctx(env, out)
     try:
         fams: list[dict] = []
